@@ -205,6 +205,15 @@ class Body:
                 elif "deref" not in d["p"]:
                     partial.setdefault(d["l"], []).append((bi, "term", d["p"]))
         self._defs, self._partial, self._mutborrowed = defs, partial, mutb
+        # arms cut off by a compile-time constant (`if IS_64_BIT { .. } else { .. }`, cfg!(feature)):
+        # what they define does not exist in this configuration
+        live = self.reachable(0)
+        if len(live) < self.n and any(b not in live for l in defs.values() for (b, _, _) in l):
+            self._defs = {l: [d for d in ds if d[0] in live] for l, ds in defs.items()}
+            self._defs = {l: ds for l, ds in self._defs.items() if ds}
+            self._partial = {l: [d for d in ds if d[0] in live] for l, ds in partial.items()}
+            self._partial = {l: ds for l, ds in self._partial.items() if ds}
+            self._origin_memo = {}
 
     @property
     def defs(self):
